@@ -24,7 +24,7 @@ RULE = (
     "Hypothesis: one stream method (producer step scripts ≤6 with emit / emit+finish / finish / raise / nothing; "
     "exchange response scripts ≤5 with emit / echo / raise / finish(refused) / nothing; optional header) × client "
     "script (producer: exhaust or take k∈0..4 then close|cancel; exchange: 0..4 inputs then close|cancel, with one "
-    "input-schema perturbation ∈ {none, reorder, compatible retype, extra, missing, renamed}) × post-cancel use × "
+    "input-schema perturbation ∈ {none, reorder, compatible retype, reorder+retype, extra, missing, renamed}) × post-cancel use × "
     "transport ∈ {pipe, unix, tcp, HTTP cap None/1/900}. Non-trivial = script has finish-with-data, a cancel, or a "
     "perturbed input. Distinct by SHA-1 of the JSON case."
 )
@@ -40,7 +40,7 @@ LEVEL_NOTE = "In-process transports; trusts the model interpreter, the invocatio
 
 _counter = itertools.count()
 CFGS = [{"t": "pipe"}, {"t": "unix"}, {"t": "tcp"}] + [{"t": "http", "cap": c, "comp": "off"} for c in (None, 1, 900)]
-PERTURB = ["none", "none", "reorder", "compatible", "extra", "missing", "renamed"]
+PERTURB = ["none", "none", "reorder", "compatible", "reorder+compatible", "extra", "missing", "renamed"]
 
 _COMPAT = {"int64": pa.int32(), "float64": pa.float32(), "utf8": pa.large_utf8(), "binary": pa.large_binary(), "bool": pa.bool_()}
 
@@ -60,10 +60,11 @@ def _fit(t: str, v: Any) -> Any:
 def build_input(cols: list[dict[str, str]], rows: dict[str, list[Any]], perturb: str) -> tuple[pa.RecordBatch, dict[str, list[Any]]]:
     """Return (batch to send, the values the state must see under the declared schema)."""
     names = [c["name"] for c in cols]
-    if perturb == "compatible":
+    if perturb in ("compatible", "reorder+compatible"):
         rows = {c["name"]: [_fit(c["type"], v) for v in rows[c["name"]]] for c in cols}
         arrays = [pa.array(rows[c["name"]], type=_COMPAT[c["type"]]) for c in cols]
-        return pa.RecordBatch.from_arrays(arrays, names=names), rows
+        b = pa.RecordBatch.from_arrays(arrays, names=names)
+        return (b.select(list(reversed(names))) if perturb == "reorder+compatible" else b), rows
     declared = RT.batch_of(cols, rows)
     if perturb == "none":
         return declared, rows
@@ -85,6 +86,8 @@ def build_input(cols: list[dict[str, str]], rows: dict[str, list[Any]], perturb:
 def _effective(cols: list[dict[str, str]], perturb: str) -> str:
     if perturb == "reorder" and len(cols) < 2:
         return "none"
+    if perturb == "reorder+compatible" and len(cols) < 2:
+        return "compatible"
     return perturb
 
 
